@@ -269,6 +269,14 @@ Theorem c12_same_destination_no_mixture : forall x d0 s1 s2, dest s1 = dest s2 -
   (forall n, n <> File (dest s1) -> d0 n <> None -> sdt st n = d0 n).
 Proof. exact proto_same_dest_no_mixture. Qed.
 
+Theorem c12_same_destination_fault_never_commits : forall x d0 s1 s2, dest s1 = dest s2 -> proto_safe x = true ->
+  forall sched, let st := run2t x s1 s2 sched (startt d0) in
+  faulted false (trt st) ->
+  committedt (q1 st) = false /\
+  (sdt st (File (dest s1)) = d0 (File (dest s1)) \/
+   (committedt (q2 st) = true /\ sdt st (File (dest s1)) = Some (new s2))).
+Proof. exact proto_same_dest_fault_never_commits. Qed.
+
 Theorem c12_same_destination_last_rename_wins :
   let sb := {| dest := 0; body := [7]; tail := []; raise_at := None |} in
   let seq w := repeat (w, false) 6 in
